@@ -3,6 +3,7 @@ package props
 import (
 	"bytes"
 	"encoding/json"
+	"errors"
 	"fmt"
 	"io"
 	"os"
@@ -18,6 +19,7 @@ import (
 	"verif/harness/api"
 	"verif/harness/guard"
 	"verif/harness/model"
+	"verif/harness/ref"
 	"verif/harness/vf"
 )
 
@@ -124,7 +126,12 @@ func checkC13(c caseC13) (sig, msg string) {
 					case 4:
 						_ = api.Observe(p)
 					case 5:
-						_, _ = mq.ReadPacket(bytes.NewReader(privateFrame(g, k)))
+						if _, err := mq.ReadPacket(bytes.NewReader(privateFrame(g, k))); err != nil {
+							// a caller logs the error: walk the chain and render it
+							for e := err; e != nil; e = errors.Unwrap(e) {
+								_ = e.Error()
+							}
+						}
 					case 11:
 						fw := &guard.ScriptWriter{Accept: len(seq) / 2, Err: &guard.InjectedError{ID: g}}
 						_, _ = p.WriteTo(fw)
@@ -239,15 +246,30 @@ func TestC13(t *testing.T) {
 			}
 		}
 		c.Decoded = rapid.Bool().Draw(t, "decoded")
-		if rapid.Bool().Draw(t, "privateframes") {
+		allRead := rapid.IntRange(0, 5).Draw(t, "allread") == 0
+		if allRead {
+			// every goroutine (also) reads from its own stream at the same time
+			for i := range c.Ops {
+				c.Ops[i] = append([]int{5, 5}, c.Ops[i]...)
+			}
+		}
+		if allRead || rapid.Bool().Draw(t, "privateframes") {
 			n := rapid.IntRange(1, 3).Draw(t, "nprivate")
 			for i := 0; i < n; i++ {
 				f, _ := genHostileFrame(t)
-				switch rapid.IntRange(0, 3).Draw(t, "privatekind") {
+				switch rapid.IntRange(0, 5).Draw(t, "privatekind") {
 				case 0:
 					_, f, _, _ = genValidFrame(t, true)
 				case 1, 2:
 					f = genMisplacedProperty(t)
+				case 3, 4:
+					// a valid frame whose body stops early (remaining length
+					// adjusted): decoding fails on every stream, each with an
+					// error of its own
+					_, v, _, _ := genValidFrame(t, true)
+					if first, hdr, body, ok := ref.Split(v); ok && len(body) > 0 {
+						f = ref.Reframe(first, v[hdr:hdr+rapid.IntRange(0, len(body)-1).Draw(t, "privatecut")])
+					}
 				}
 				if len(f) > 2048 {
 					f = f[:2048]
